@@ -66,6 +66,9 @@ def run(chk):
         for k in ("a", "b", "c", "u"):
             if k in e:
                 small[k] = [[i["s"], i["e"]] for i in e[k]]
+        if e.get("_form"):
+            small["form"] = e["_form"]
+            small["observed"] = e.get("_r")
         chk.diverge({"clause": clause, "src": "default-registry", "ev": e["ev"]}, small)
     for e in events:
         if "_bridge" not in e:
@@ -205,6 +208,34 @@ def drive_default(chk, rng, thorough):
                     g = e
                 ev["_bridge"][T.__name__] = g
 
+    # units handed over as mappings with float exponents (dict / the registry's UnitsContainer factory): an exact registry reads the
+    # exponents in its own numeric type, so integral ones keep the factor exact.  On a registry of its own: the cache must be cold.
+    # (A pint.util.UnitsContainer built by the caller without the registry keeps its float exponents - that is the caller's choice of type.)
+    umap = pint.UnitRegistry(non_int_type=F)
+    UC = umap.UnitsContainer
+    for _ in range(400 if thorough else 120):
+        c = rng.choice(classes)
+        a, b = rng.choice(c), rng.choice(c)
+        e = rng.choice([2.0, -1.0, 3.0, -2.0, 1.0])
+        form = rng.choice(["convert(dict)", "Quantity(UnitsContainer).to", "get_root_units(dict)"])
+        try:
+            with alarm(5):
+                if form == "convert(dict)":
+                    r = umap.convert(F(1), {a: e}, {b: e})
+                elif form == "Quantity(UnitsContainer).to":
+                    r = umap.Quantity(F(1), UC({a: e})).to(UC({b: e})).magnitude
+                else:
+                    r = umap.get_root_units({a: e})[0] / umap.get_root_units({b: e})[0]
+        except CaseTimeout:
+            chk.skipped += 1
+            continue
+        except Exception as ex:
+            chk.diverge({"clause": "mapping-units-raise", "form": form, "exc": type(ex).__name__, "src": "default-registry"}, {"a": a, "b": b, "exponent": e})
+            continue
+        exact = isinstance(r, (F, int))
+        num, den = defreg.residues(r) if exact else ([0, 0], [1, 1])
+        events.append({"ev": "conv", "a": defreg.cont({a: int(e)}), "b": defreg.cont({b: int(e)}), "res": "ok", "checkfactor": True,
+                       "num": num, "den": den, "pyexact": exact, "_form": form, "_r": repr(r), "_e": e})
     # root factor of every canonical unit
     for n in canon:
         try:
